@@ -34,7 +34,7 @@ pub fn run(ctx: &mut Ctx) {
     }
     // ---- implementation-only oracle ----
     let mut rng = ctx.rng("oracle");
-    let n = if ctx.quick() { 4000 } else { 150_000 };
+    let n = if ctx.quick() { 4000 } else { 600_000 };
     for k in 0..n {
         let len = if k % 50 == 0 { rng.range(0, 20000) } else { rng.range(0, 400) } as usize;
         let data = rng.bytes(len);
